@@ -422,7 +422,8 @@ def run(tier, seed):
 
 
 def extra_parts(ck, tier, seed):
-    from checks import c12_trace
+    from checks import c12_trace, c12_apa
+    c12_apa.run(ck)
     c12_trace.run(ck, tier, seed)
     _extra_parts(ck, tier, seed)
 
